@@ -8,6 +8,7 @@ from __future__ import annotations
 
 import asyncio
 import contextlib
+from collections.abc import AsyncGenerator
 import errno as _errno
 import itertools
 import warnings
@@ -61,7 +62,8 @@ RULE = ("request stream = 0-4 frames (valid / undecodable / empty payload) + opt
         "End-to-end family: one connection of the real server over the REAL asyncio stream transport "
         "(StreamReaderBufferedProtocol + socket adapter, harness = selector), a handler that only yields timeouts, read events "
         "one tick before / exactly at (both timer orders) / after the expiry of the yielded timeout; the handler must see the "
-        "whole decoding of the stream.  One-chunk streams with every order of valid/malformed frames.  Strict and lenient "
+        "whole decoding of the stream.  One-chunk streams with every order of valid/malformed frames.  Request values include None and the "
+        "other falsy values (lf-falsy framing); handler generators native or class-based (non-native AsyncGenerator).  Strict and lenient "
         "transports (recv after aclose).  "
         "Non-trivial = at least one generator restart with a request still to "
         "come, or a parse error thrown, or a timeout thrown, or the handler closes the client before the stream ends.")
@@ -77,6 +79,65 @@ ASSUMPTIONS = ["the model is of ONE connection; independence of concurrent conne
                "cancellation is only delivered while the transport waits with no data (C10 covers the data race)"]
 
 TICK = 1.0 / 1024
+
+
+# request values from a domain that includes None and the other falsy values: the payload byte selects the value
+FALSY = {b"N": None, b"0": 0, b"F": False, b"E": "", b"L": []}      # (b"" is what an empty frame already gives)
+
+
+def _falsy_key(v):
+    for k, x in FALSY.items():
+        if type(x) is type(v) and x == v:
+            return k
+    return None
+
+
+class FalsyAutoSep(sc.IdAutoSep):
+    def serialize(self, packet):
+        k = _falsy_key(packet)
+        return k if k is not None else bytes(packet)
+
+    def deserialize(self, data):
+        v = super().deserialize(data)
+        return FALSY.get(v, v)
+
+
+def make_serializer(kind, cfg, impl):
+    if impl[0] == b"autosep-falsy":
+        return FalsyAutoSep(cfg[0], cfg[1], ascii_only=True)
+    return sc.make_serializer(kind, cfg, impl)
+
+
+def canon(req):
+    """the payload bytes a request value stands for"""
+    k = _falsy_key(req)
+    return k if k is not None else sc.canon_packet(req)
+
+
+def spec_impl(impl):
+    return [b"autosep-ascii"] if impl[0] == b"autosep-falsy" else impl
+
+
+class ProxyAsyncGen(AsyncGenerator):
+    """a class-based (non-native) collections.abc.AsyncGenerator around a native one"""
+
+    def __init__(self, gen):
+        self._gen = gen
+
+    def __aiter__(self):
+        return self
+
+    def __anext__(self):
+        return self._gen.__anext__()
+
+    def asend(self, value):
+        return self._gen.asend(value)
+
+    def athrow(self, *args):
+        return self._gen.athrow(*args)
+
+    def aclose(self):
+        return self._gen.aclose()
 
 
 class HandlerError(Exception):
@@ -210,9 +271,10 @@ def classify(exc):
 
 
 class _Conn:
-    def __init__(self, acts, oc):
+    def __init__(self, acts, oc, proxy=False):
         self.acts = deque(acts)
         self.oc = oc
+        self.proxy = proxy      # generators handed to the server are class-based AsyncGenerator objects
         self.log = []
         self.counter = 0
 
@@ -234,7 +296,7 @@ class ScriptedHandler(AsyncStreamRequestHandler):
         cn = self.conn(client)
         cn.log.append([0])
         if cn.oc == 1:
-            return self._gen(client, cn)
+            return self._wrap(cn, self._gen(client, cn))
         return self._on_conn(client, cn)
 
     async def _on_conn(self, client, cn):
@@ -245,7 +307,12 @@ class ScriptedHandler(AsyncStreamRequestHandler):
         self.conn(client).log.append([6])
 
     def handle(self, client):
-        return self._gen(client, self.conn(client))
+        cn = self.conn(client)
+        return self._wrap(cn, self._gen(client, cn))
+
+    @staticmethod
+    def _wrap(cn, gen):
+        return ProxyAsyncGen(gen) if cn.proxy else gen
 
     async def _gen(self, client, cn):
         g = cn.counter
@@ -279,7 +346,7 @@ class ScriptedHandler(AsyncStreamRequestHandler):
                 cn.log.append([3, g, classify(exc), self.now()])
             else:
                 thrown = None
-                cn.log.append([2, g, sc.canon_packet(req), self.now()])
+                cn.log.append([2, g, canon(req), self.now()])
                 if not client.is_closing():
                     await client.send_packet(req)
 
@@ -293,14 +360,14 @@ async def _main(conn_inputs, loop):
     from easynetwork.servers.misc import build_lowlevel_stream_server_handler
 
     kind, cfg, _dec, _peer, _acts, _oc, bufsize, impl = conn_inputs[0][:8]
-    ser = sc.make_serializer(kind, cfg, impl)
+    ser = make_serializer(kind, cfg, impl)
     protocol = BufferedStreamProtocol(ser) if kind in (1, 3) else StreamProtocol(ser)
     backend = new_builtin_backend("asyncio")
     transports, conns = [], {}
     for i, ci in enumerate(conn_inputs):
         port = 2222 + i
         transports.append(PeerTransport(ci[3], backend, loop, port, lenient=bool(ci[8]) if len(ci) > 8 else False))
-        conns[port] = _Conn(ci[4], ci[5])
+        conns[port] = _Conn(ci[4], ci[5], proxy=bool(ci[9]) if len(ci) > 9 else False)
     listener = MemListener(backend, transports, loop)
     server = AsyncStreamServer(listener, protocol, max_recv_size=bufsize)
     rh = ScriptedHandler(conns, loop)
@@ -362,7 +429,7 @@ class TimeoutOnlyHandler(AsyncStreamRequestHandler):
             except Exception as exc:
                 self.log.append([9, type(exc).__name__.encode()])
             else:
-                self.log.append([0, sc.canon_packet(req)])
+                self.log.append([0, canon(req)])
             finally:
                 self.waiting.clear()
 
@@ -379,7 +446,7 @@ async def _main_e2e(inp, loop):
 
     _tag, conn, plan, timeouts = inp[:4]
     kind, cfg, _dec, _peer, _acts, _oc, bufsize, impl = conn[:8]
-    ser = sc.make_serializer(kind, cfg, impl)
+    ser = make_serializer(kind, cfg, impl)
     protocol = BufferedStreamProtocol(ser) if kind in (1, 3) else StreamProtocol(ser)
     backend = new_builtin_backend("asyncio")
     ktr = KernelTransport(loop)
@@ -493,6 +560,8 @@ FRAMINGS = [
          valid=[b"a\n", b"bc\n"], bad=[b"\xff\n"], empty=[b"\n"], partial=[b"d"]),
     dict(name="crlf", kinds=(0, 1), cfg=[b"\r\n", 12, 0], impl=[b"autosep-ascii"], dec=1,
          valid=[b"a\r\n", b"\rb\r\n"], bad=[b"\xfe\r\n"], empty=[b"\r\n"], partial=[b"c\r"]),
+    dict(name="lf-falsy", kinds=(0, 1), cfg=[b"\n", 12, 0], impl=[b"autosep-falsy"], dec=1,
+         valid=[b"N\n", b"0\n", b"a\n", b"F\n", b"L\n", b"E\n"], bad=[b"\xff\n"], empty=[b"\n"], partial=[b"d"]),
     dict(name="fixed2", kinds=(2, 3), cfg=[2], impl=[b"fixed-ascii"], dec=1,
          valid=[b"ab", b"cd"], bad=[b"\xffz"], empty=[], partial=[b"e"]),
 ]
@@ -501,12 +570,12 @@ TMO = [[], [0], [4], [8]]
 ACTS = [[0, t] for t in TMO] + [[1], [2], [4]] + [[3, []], [3, [4]]]
 
 
-def mk(fr, buffered, peer, acts, oc, bufsize, lenient=0):
+def mk(fr, buffered, peer, acts, oc, bufsize, lenient=0, proxy=0):
     kind = fr["kinds"][1 if buffered else 0]
     cfg = list(fr["cfg"])
     if kind in (1, 3):
         cfg = cfg + [bufsize]
-    return [kind, cfg, fr["dec"], peer, acts, oc, bufsize, fr["impl"], lenient]
+    return [kind, cfg, fr["dec"], peer, acts, oc, bufsize, fr["impl"], lenient, proxy]
 
 
 def build_peer(chunks, rng, end):
@@ -594,7 +663,9 @@ def _single_cases(tier, rng, escalate):
                         tags.append("lenient-transport" if lenient else "strict-transport")
                         if acts and acts[0][0] in (2, 3):
                             tags.append("closes-before-first-yield")
-                        yield dict(input=mk(fr, buffered, peer, acts, oc, bufsize, lenient), tags=tags,
+                        proxy = int(rng.random() < 0.35)
+                        tags.append("class-based-generators" if proxy else "native-generators")
+                        yield dict(input=mk(fr, buffered, peer, acts, oc, bufsize, lenient, proxy), tags=tags,
                                    nontrivial=bool(len(frames) >= 1 and (kinds - {0} or any(f in fr["bad"] for f in frames)
                                                                          or "finite-timeouts" in tags)))
 
@@ -691,7 +762,7 @@ def _multi_cases(tier, rng, escalate):
         (a1, b1), (a2, b2) = _span(i1[3]), _span(i2[3])
         overlap = a1 <= b2 and a2 <= b1
         tags = ["two-connections", "overlapping-lifetimes" if overlap else "disjoint-lifetimes"] + \
-               [t for t in c1["tags"] if t in ("buffered", "copying", "lf", "crlf", "fixed2")]
+               [t for t in c1["tags"] if t in ("buffered", "copying", "lf", "crlf", "lf-falsy", "fixed2")]
         yield dict(input=[100, i1, i2], tags=tags, nontrivial=True)
 
 
@@ -701,7 +772,7 @@ def _oracle_e2e(inp):
     _tag, conn, plan, timeouts = inp[:4]
     kind, cfg, _dec, _peer, _acts, _oc, bufsize, impl = conn[:8]
     stream = b"".join(ch for ch, _m in plan)
-    expected, _left = sc.spec_events_py(kind, cfg, impl, stream)
+    expected, _left = sc.spec_events_py(kind, cfg, spec_impl(impl), stream)
     exp = [[0, e[1]] if e[0] == 0 else [1, 1] for e in expected]
     got = run_impl(inp)
     if got != exp:
@@ -734,7 +805,7 @@ def _check(inp, out):
         if it[0] != 0 or not it[1]:
             break
         stream += it[1]
-    expected, _left = sc.spec_events_py(kind, cfg, impl, stream)
+    expected, _left = sc.spec_events_py(kind, cfg, spec_impl(impl), stream)
     exp = [[0, e[1]] if e[0] == 0 else [1, 1] for e in expected]
     log, wire, outcome, closed, _left_items, _now = out
     got = []
@@ -752,6 +823,9 @@ def _check(inp, out):
         return f"generators started {started} but terminated {ended}"
     if not closed:
         return "transport not closed at the end of the client task"
+    if outcome and outcome[0][0] == 9:
+        return (f"the client task died with {outcome[0][1].decode()} (not raised by the handler): the handler saw {got} of the "
+                f"{len(exp)} requests the peer sent")
     # the peer ended the connection (GeneratorExit delivered although the handler never closes): nothing may be missing
     gen_events = [ev for ev in log if ev[0] in (4, 5)]
     if oc != 2 and not any(a[0] in (2, 3) for a in acts) and gen_events and gen_events[-1][0] == 5 and outcome == [] \
